@@ -58,6 +58,9 @@ struct Witness {
     /// directory; `file_name` is taken relative to the first directory and the repository's DefaultFileReader is used
     #[serde(default)]
     real_fs: bool,
+    /// with real_fs: `file_name` stays relative (to the working directory made of `cwd_files`)
+    #[serde(default)]
+    relative_file_name: bool,
     #[serde(default)]
     symlinks: std::collections::HashMap<String, String>,
     #[serde(default)]
@@ -285,6 +288,7 @@ fn main() {
             "stress" => { w.config.chain_source_map = Some(true); w.config.print_comments = Some(true); w.config.prologue = Some(true); }
             "comments" => { w.config.print_comments = Some(true); }
             "prologue" => { w.config.prologue = Some(true); }
+            "off_prologue" => { w.config.prologue = Some(true); w.config.verbosity = Some("OFF".to_string()); }
             "information" => { w.config.verbosity = Some("INFORMATION".to_string()); }
             "off" => { w.config.verbosity = Some("OFF".to_string()); }
             other => panic!("unknown variant {other}"),
@@ -346,7 +350,7 @@ fn main() {
             std::fs::write(&f, c).expect("write cwd file");
         }
         std::env::set_current_dir(&cwd).expect("chdir");
-        fname = root.join(&w.file_name).to_string_lossy().to_string();
+        if !w.relative_file_name { fname = root.join(&w.file_name).to_string_lossy().to_string(); }
         real_dirs.push(base);
     }
 
@@ -648,6 +652,9 @@ fn main() {
                 "metric_ne" => metric != v.as_i64().unwrap(),
                 "status_is" => status == v.as_str().unwrap(),
                 "status_is_not" => status != v.as_str().unwrap(),
+                // the configuration asks for the file prologue
+                "prologue_expected" => with_prologue == v.as_bool().unwrap(),
+                "code_is_empty" => code.trim().is_empty() == v.as_bool().unwrap(),
                 "code_contains" => code.contains(v.as_str().unwrap()),
                 "code_not_contains" => !code.contains(v.as_str().unwrap()),
                 "content_contains" => content.contains(v.as_str().unwrap()),
@@ -750,8 +757,11 @@ fn main() {
             "C15" if variant == "information" => vec![("hooks_ne_metric", j(&format!("[{ok_run},{{\"hooks_ne_metric\":true}}]")))],
             "C15" => vec![("hooks_ne_metric", j(&format!("[{ok_run},{{\"hooks_ne_metric\":true}}]"))), ("debug_sum_ne_metric", j(&format!("[{ok_run},{{\"debug_sum_ne_metric\":true}}]")))],
             "C12" => vec![("modified_without_hook", j(&format!("[{ok_run},{{\"status_is\":\"modified\"}},{{\"hooks_eq\":0}}]"))), ("modified_without_valid_map", j(&format!("[{ok_run},{{\"status_is\":\"modified\"}},{{\"map_invalid\":true}}]"))),
-                          ("hook_without_modified", j(&format!("[{ok_run},{{\"status_is\":\"notmodified\"}},{{\"hooks_ne\":0}}]")))],
-            "C05" => vec![("unconfigured_hook_referenced", j(&format!("[{ok_run},{{\"unconfigured_hook_referenced\":true}}]")))],
+                          ("hook_without_modified", j(&format!("[{ok_run},{{\"status_is\":\"notmodified\"}},{{\"hooks_ne\":0}}]"))),
+                          ("not_modified_carries_code", j(&format!("[{ok_run},{{\"status_is\":\"notmodified\"}},{{\"code_is_empty\":false}}]"))),
+                          ("modified_without_prologue_definitions", j(&format!("[{ok_run},{{\"status_is\":\"modified\"}},{{\"prologue_expected\":true}},{{\"hook_missing_in_prologue\":true}}]")))],
+            "C05" => vec![("unconfigured_hook_referenced", j(&format!("[{ok_run},{{\"unconfigured_hook_referenced\":true}}]"))),
+                          ("hook_missing_in_prologue", j(&format!("[{ok_run},{{\"status_is\":\"modified\"}},{{\"prologue_expected\":true}},{{\"hook_missing_in_prologue\":true}}]")))],
             "C09" => vec![("map_points_outside_input", j(&format!("[{ok_run},{{\"status_is\":\"modified\"}},{{\"map_points_outside_input\":true}}]"))),
                           ("copied_identifier_mismapped", j(&format!("[{ok_run},{{\"status_is\":\"modified\"}},{{\"copied_identifier_mismapped\":true}}]"))),
                           ("hook_call_mapped_outside_statement", j(&format!("[{ok_run},{{\"status_is\":\"modified\"}},{{\"hook_call_mapped_outside_statement\":true}}]")))],
